@@ -273,11 +273,12 @@ def rule_get(ck):
         if not (q.is_call(x, "self.set_header") and _hdr_is(x, "Content-Range")):
             return False
         v = q.arg(x, 1, "value")
+        v = resolve(get, v) if v is not None else v    # the value may travel through an explaining local
         return isinstance(v, ast.Call) and q.call_attr(v) == "_get_content_range"
 
     require_after(ck, "C27.206", get, lambda nd: any(nd.id == n2.id for n2, _ in s206), _node_pred(cr206), "206 carries Content-Range from _get_content_range on every path")
     for nd, c in get.cfg.find(cr206):
-        v = q.arg(c, 1, "value")
+        v = resolve(get, q.arg(c, 1, "value"))
         gp_ = ck.func(HU, "_get_content_range").params()
         got3 = [q.dotted(_ca(ck.repo, get, v, i_, gp_[i_])) if _ca(ck.repo, get, v, i_, gp_[i_]) is not None else None for i_ in range(3)]
         ck.ob("C27.206", get, c, got3 == [start, end, size], "Content-Range is computed from (%s, %s, %s)" % (start, end, size))
